@@ -11,6 +11,7 @@ import (
 	"hash/fnv"
 	"io"
 	"math"
+	"math/big"
 	"sort"
 	"strconv"
 	"strings"
@@ -852,6 +853,7 @@ func main() {
 		} else {
 			checkCSV(r)
 			checkTextFormats(r)
+			checkNumerals(r)
 		}
 		r.NontrivialAdd(2)
 		r.Sample("replay")
@@ -879,8 +881,113 @@ func main() {
 		}
 		enumMeshes(r, maxLen)
 	})
-	r.Isolate("csv-text", func() { checkCSV(r); checkTextFormats(r) })
+	r.Isolate("csv-text", func() { checkCSV(r); checkTextFormats(r); checkNumerals(r) })
 	r.Isolate("generic-ply", func() { enumGenericPLY(r, r.Thorough()) })
 	r.Isolate("builders", func() { checkBuilders(r); checkBuildersSignedZero(r) })
 	r.Finish()
+}
+
+// ---- decimal numerals in the text formats ----
+//
+// A text file may spell a coordinate with any number of digits. Reading it must give the single-precision value
+// nearest to the decimal number (one rounding). The numerals here sit just above and just below the midpoint of two
+// adjacent float32 values - closer to it than half a double-precision ulp, so that a reader which first rounds to
+// double and then to single lands on the midpoint and resolves the tie the wrong way - next to 1, to 2^24, to a
+// small normal, a subnormal and the largest finite value; the expected value is computed with math/big.
+func checkNumerals(r *ev.Run) {
+	bases := []float32{1, 1 + 1.0/(1<<23), 0.5, 16777216, 16777218, 0.1, 3.1415927, 1e-3, 1.17549435e-38, 1e-40, 3.0e38, -1, -0.75, 100000.5}
+	var numerals []string
+	for _, x := range bases {
+		next := math.Nextafter32(x, float32(math.Inf(1)))
+		if x < 0 {
+			next = math.Nextafter32(x, float32(math.Inf(-1)))
+		}
+		mid := new(big.Float).SetPrec(300).SetFloat64(float64(x))
+		mid.Add(mid, new(big.Float).SetPrec(300).SetFloat64(float64(next)))
+		mid.Quo(mid, big.NewFloat(2))
+		exact := mid.Text('f', 200)
+		exact = strings.TrimRight(exact, "0")
+		if strings.HasSuffix(exact, ".") {
+			exact += "0"
+		}
+		numerals = append(numerals, exact+"1") // just beyond the midpoint (away from zero)
+		// just short of the midpoint: last digit lowered by one, then 9
+		b := []byte(exact)
+		for i := len(b) - 1; i >= 0; i-- {
+			if b[i] >= '1' && b[i] <= '9' {
+				b[i]--
+				numerals = append(numerals, string(b)+"9")
+				break
+			}
+		}
+		numerals = append(numerals, exact) // the tie itself: to even
+		numerals = append(numerals, strconv.FormatFloat(float64(x), 'g', 17, 64), strconv.FormatFloat(float64(x), 'e', 20, 64), strconv.FormatFloat(float64(x), 'g', -1, 32))
+	}
+	want := func(tok string) float64 {
+		f, _, err := big.ParseFloat(tok, 10, 400, big.ToNearestEven)
+		if err != nil {
+			panic(err)
+		}
+		v, _ := f.Float32()
+		return float64(v)
+	}
+	for len(numerals)%9 != 0 {
+		numerals = append(numerals, "0")
+	}
+	// ASCII STL: nine numerals per facet
+	var sb strings.Builder
+	sb.WriteString("solid numerals\n")
+	for i := 0; i < len(numerals); i += 9 {
+		sb.WriteString("facet normal 0 0 1\n  outer loop\n")
+		for k := 0; k < 3; k++ {
+			fmt.Fprintf(&sb, "    vertex %s %s %s\n", numerals[i+3*k], numerals[i+3*k+1], numerals[i+3*k+2])
+		}
+		sb.WriteString("  endloop\nendfacet\n")
+	}
+	sb.WriteString("endsolid numerals\n")
+	r.Eval(len(numerals))
+	r.NontrivialAdd(len(numerals))
+	got, err := model3d.ReadSTL(strings.NewReader(sb.String()))
+	if err != nil || len(got) != len(numerals)/9 {
+		r.Violation("stl-ascii/numerals-read-error", fmt.Sprintf("reading %d facets of long numerals: %d facets, err %v", len(numerals)/9, len(got), err), map[string]interface{}{"text": sb.String()})
+	} else {
+		for i, t := range got {
+			for k := 0; k < 3; k++ {
+				for c, v := range t[k].Array() {
+					tok := numerals[i*9+3*k+c]
+					if w := want(tok); !bitsEq(v+0, w+0) {
+						r.Violation("stl-ascii/numeral", fmt.Sprintf("the numeral %s was read as %v (bits %x); the nearest single-precision value is %v (bits %x)", tok, v, math.Float32bits(float32(v)), w, math.Float32bits(float32(w))), map[string]interface{}{"numeral": tok})
+						return
+					}
+				}
+			}
+		}
+	}
+	// ASCII PLY: one float property per row
+	var pb strings.Builder
+	fmt.Fprintf(&pb, "ply\nformat ascii 1.0\nelement sample %d\nproperty float v\nend_header\n", len(numerals))
+	for _, tok := range numerals {
+		pb.WriteString(tok + "\n")
+	}
+	pr, err := fileformats.NewPLYReader(strings.NewReader(pb.String()))
+	if err != nil {
+		r.Violation("ply-ascii/numerals-read-error", err.Error(), nil)
+		return
+	}
+	for _, tok := range numerals {
+		row, _, err := pr.Read()
+		if err != nil || len(row) != 1 {
+			r.Violation("ply-ascii/numerals-read-error", fmt.Sprintf("numeral %s: %v", tok, err), map[string]interface{}{"numeral": tok})
+			return
+		}
+		v, ok := row[0].(fileformats.PLYValueFloat32)
+		if !ok {
+			r.Violation("ply-ascii/numerals-read-error", fmt.Sprintf("numeral %s decoded as %T", tok, row[0]), nil)
+			return
+		}
+		if w := want(tok); !bitsEq(float64(v.Value)+0, w+0) {
+			r.Violation("ply-ascii/numeral", fmt.Sprintf("the numeral %s was read as %v; the nearest single-precision value is %v", tok, v.Value, w), map[string]interface{}{"numeral": tok})
+			return
+		}
+	}
 }
